@@ -550,6 +550,20 @@ def gen_trial(r, kind, k):
         t["main_init"] = 1
         t["main_fini"] = 1
         t["lockstep"] = 1 + r.below(1 << 30)
+    elif kind == "lockfini":
+        # serialised, OVNI_TMPDIR set: one thread traces, frees its stream and finalises the process while others call
+        # ovni_proc_init; the switches fall on the rmdir(2) calls INSIDE ovni_proc_fini too, so a racer runs
+        # between its accesses to the process state.  The process was initialised by main: every racing init must be refused.
+        prog = [o for o in tracing_prog(r, 0, base, 1, rank=rank) if o[0] not in "USY"]
+        t["threads"].append(prog + ["Q"])
+        t["may_refuse"].append({len(prog)})
+        for i in range(r.range(1, 3)):
+            wait = ["J"] if r.chance(4, 5) else []      # J: wait (giving the turn away) until some thread is inside ovni_proc_fini
+            t["threads"].append(wait + ["P"])
+            t["may_refuse"].append({len(wait)})
+        t["tmpdir"] = True
+        t["main_init"] = 1
+        t["lockstep"] = 1 + r.below(1 << 30)
     else:
         n = r.range(2, 8)
         heavy = r.chance(1, 5)
@@ -1080,7 +1094,7 @@ def run(chk):
         trials = []
         for kind, n in (("init", chk.budget(200, 2000)), ("fini", chk.budget(200, 2000)), ("iso", chk.budget(100, 1000)),
                         ("init-pure", chk.budget(400, 4000)), ("fini-pure", chk.budget(400, 4000)),
-                        ("lockstep", chk.budget(160, 1600))):
+                        ("lockstep", chk.budget(160, 1600)), ("lockfini", chk.budget(120, 1200))):
             for k in range(n):
                 trials.append(gen_trial(rng.fork("%s%d" % (kind, k)), kind, k))
 
@@ -1279,6 +1293,7 @@ def run(chk):
                             "init trials race ovni_proc_init (winner and late joiners then trace), fini trials race ovni_proc_fini after tracing (optionally with a "
                             "bystander still tracing), iso trials run random per-thread programs (emit/flush/attr/cpu/rank/require/free, 1 in 7 with an illegal call); "
                             "lockstep trials run 2-4 legal tracing programs serialised, one thread at a time, switching pseudo-randomly at the libc calls the library makes "
-                            "(strtol, strtod, snprintf, open, fopen, fclose, write, mkdir) so that a window between two libc calls of one API function is as wide as a whole run of the others; "
+                            "(strtol, strtod, snprintf, open, fopen, fclose, write, mkdir, rmdir) so that a window between two libc calls of one API function is as wide as a whole run of the others; "
+                            "lockfini trials (lockstep, OVNI_TMPDIR) let 1-3 racers call ovni_proc_init while another thread is inside ovni_proc_fini (switches at its rmdir calls): every racing init must be refused; "
                             "a quarter with OVNI_TMPDIR; non-trivial = distinct script; the decider is a sequential per-thread spec in Python, the model prediction is "
                             "compared separately; TSan runs a subset of the same scripts; model-run = whole-system run of the extracted model under a random schedule")
